@@ -131,6 +131,10 @@ class C15(Prop):
         "RxModel.GenTie.FinalizeThreads": ["fin"],
         "RxModel.GenTie.WiringFinalize": ["fin"],
         "RxModel.GenTie.WiringFinalizeThreads": ["fin"],
+        # the hot source the suite puts above finalize: every observer handed to actual_subscribe is REGISTERED (whatever
+        # it answers to is_finished) and gets the terminal — what the repair e3b3f31 rests on
+        "RxModel.GenTie.Subject": [], "RxModel.GenTie.SubjectThreads": [],
+        "RxModel.GenTie.Subscriber": [], "RxModel.GenTie.SubscriberThreads": [],
     }
 
     def cases(self, tier, seed):
@@ -247,7 +251,26 @@ class C15(Prop):
                         c = mk_case(chain, self.number(seq), fl, "dead")
                         c.fields.append(("dead", ["1"]))
                         out.append(c)
+        # the downstream of finalize is ALREADY finished when finalize subscribes to the hot source: start_with replays its
+        # values first, a `take` below it is full before the source is subscribed at all.  The finalizer is still a
+        # subscriber of the source: its callback runs at the source's terminal / at unsubscription, once (seed C15-9: the
+        # subject did not register an observer that reported finished).  No model for start_with in this suite: oracle only.
+        for fl in ("local", "threads"):
+            for vals, k in ((["7"], 1), (["7", "8"], 1), (["7", "8"], 2), (["7"], 2), (["7", "8", "9"], 2)):
+                for mid in ([], [["map", "add1"]], [["fin", "1"]]):
+                    for below in ([], [["map", "add1"]]):
+                        chain = [["fin", "0"]] + mid + [["startwith"] + vals, ["take", str(k)]] + below
+                        for n in range(4):
+                            for seq in itertools.product(ALPHABET, repeat=n):
+                                if any(e == UNSUB for e in seq[:-1]) and fl == "threads":
+                                    continue
+                                out.append(mk_case(chain, self.number(seq), fl, "startwith"))
         return out
+
+    def compare_from(self, case):
+        if any(e[0] == "startwith" for e in case.field("chain")):
+            return len(case.events)
+        return 0
 
     @staticmethod
     def number(seq):
